@@ -54,8 +54,10 @@ macro_rules! int_type {
                 json!({"some": {"neg": r["neg"], "mag": r["mag"], "consumed": r["consumed"]}}),
             _ => none(),
         };
-        let whole = match kp::$pm($st) { Ok(v) => render(v, $st.len()), Err(_) => none() };
-        $s.check(&format!("primitive::parse_{tn}"), whole, &whole_exp);
+        if !ONLY_PARSER.load(std::sync::atomic::Ordering::Relaxed) {
+            let whole = match kp::$pm($st) { Ok(v) => render(v, $st.len()), Err(_) => none() };
+            $s.check(&format!("primitive::parse_{tn}"), whole, &whole_exp);
+        }
         // reference vs std (std additionally accepts a leading '+')
         if !$st.starts_with('+') {
             let stdv = match $st.parse::<$t>() { Ok(v) => render(v, $st.len()), Err(_) => none() };
@@ -65,7 +67,11 @@ macro_rules! int_type {
     }};
 }
 
+/// set per record: C14 replays the vectors through the Parser operations only
+static ONLY_PARSER: std::sync::atomic::AtomicBool = std::sync::atomic::AtomicBool::new(false);
+
 pub fn replay(s: &mut Summary, v: &V) {
+    ONLY_PARSER.store(v.get("only_parser").is_some(), std::sync::atomic::Ordering::Relaxed);
     let ty = v["ty"].as_str().unwrap();
     let bytes = bytes_of(&v["s"]);
     let st = std::str::from_utf8(&bytes).expect("ParseInt inputs are UTF-8");
@@ -93,7 +99,7 @@ pub fn replay(s: &mut Summary, v: &V) {
                 Some(r) if r["consumed"].as_u64().unwrap() as usize == bytes.len() => json!({"some": r["val"]}),
                 _ => none(),
             };
-            s.check("primitive::parse_bool", match kp::parse_bool(st) { Ok(b) => json!({"some": b}), Err(_) => none() }, &whole_exp);
+            if v.get("only_parser").is_none() { s.check("primitive::parse_bool", match kp::parse_bool(st) { Ok(b) => json!({"some": b}), Err(_) => none() }, &whole_exp); }
             s.guard("std::parse::<bool>", match st.parse::<bool>() { Ok(b) => json!({"some": b}), Err(_) => none() }, &whole_exp);
         }
         _ => panic!("unknown ParseInt type {ty}"),
